@@ -106,9 +106,20 @@ def d7(ctx, rep):
         n += 1
         refuted = und = proved_dom = 0
         first = None
-        for a, b in zip(cuts, cuts[1:]):
+        for a, b in [(0.0, 0.0), (0.0, 0.001)] + list(zip(cuts, cuts[1:])):
             box = IV(a, b)
-            alts, _ = evaluate_attrs(ctx, cls, 'compute_theta', {'tau': box})
+            alts, ik_ = evaluate_attrs(ctx, cls, 'compute_theta', {'tau': box})
+            if not alts:
+                from ..absint import Frame
+                rs_ = [st_ for st_, d_ in ik_.raise_alts(Frame(fn, {}, cls)) if d_]
+                if rs_:
+                    rep.bad('D7.calib', fn, rs_[0], f'for tau in {box} compute_theta has no return and raises (`{short(rs_[0], 50)}`): fit refuses data the '
+                            f'{cls.name} family can model', construct=f'{cls.name}.compute_theta: admissible tau refused')
+                    refuted += 1
+                    break
+                und += 1
+                first = first or f'tau in {box}: no return path is feasible'
+                continue
             for th, definite in alts:
                 if not isinstance(th, IV):
                     und += 1
